@@ -11,7 +11,6 @@ CONSTANTS AllLen, CoreLen,      \* bounds on the number of blocks
                                 \* demonstrated on the real code; documents containing one are not asserted here)
           EscLen                \* escape pair: strings up to this length
 
-B(s) == s       \* (readability)
 \* configurations: base URL, directory
 CfgMulti == Cfg(<<104,116,116,112,115,58,47,47,101,120,97,109,112,108,101,46,99,111,109,47,98,97,115,101,47>>,   \* https://example.com/base/
                 <<100,111,99,115,47,115,117,98>>)                                                                   \* docs/sub
@@ -37,18 +36,22 @@ Next == \E k \in 1..NK :
 
 (* ---- the model meets the reference ---- *)
 HasExcused(d) == \E i \in 1..Len(d) : Kinds[d[i]].name \in Excused
-RelSpans(d) == SelectSeq(Doc(d).spans, LAMBDA sp : sp.c = "rel")
-\* the scanner rewrites exactly the ground-truth relative destinations ...
-ModelRewritesExactlyTruth ==
-  HasExcused(doc) \/ [n \in 1..Len(S.reps) |-> <<S.reps[n].s, S.reps[n].e>>] = [n \in 1..Len(RelSpans(doc)) |-> <<RelSpans(doc)[n].s, RelSpans(doc)[n].e>>]
-\* ... and whenever it does rewrite a ground-truth span, what it writes is the reference's Rewrite
-ModelRewriteIsRef ==
-  LET src == Doc(doc).src IN
-  \A n \in 1..Len(S.reps) :
-     (\E sp \in {Doc(doc).spans[m] : m \in 1..Len(Doc(doc).spans)} : sp.s = S.reps[n].s /\ sp.e = S.reps[n].e /\ sp.c = "rel")
-        => RewriteOk(Sub(src, S.reps[n].s + 1, S.reps[n].e), S.reps[n].repl, CfgMulti)
-\* the offsets are consistent (the incremental scan sees the same text as the whole-document scan)
-OffIsLen == off = Len(Doc(doc).src)
+\* the scanner rewrites exactly the ground-truth relative destinations, and what it writes there is the
+\* reference's Rewrite; the offsets are consistent (the incremental scan sees the whole document's text)
+ModelMeetsRef ==
+  LET dd == Doc(doc)
+      rel == SelectSeq(dd.spans, LAMBDA sp : sp.c = "rel") IN
+  /\ off = Len(dd.src)
+  /\ HasExcused(doc) \/
+       /\ Len(S.reps) = Len(rel)
+       /\ \A n \in 1..Len(rel) :
+            /\ S.reps[n].s = rel[n].s /\ S.reps[n].e = rel[n].e
+            /\ RewriteOk(Sub(dd.src, rel[n].s + 1, rel[n].e), S.reps[n].repl, CfgMulti)
+\* whatever the model rewrites (also in excused documents, also a span that is not a destination) becomes
+\* absolute against the base
+ModelOutputAbsolute ==
+  LET dd == Doc(doc) IN
+  \A n \in 1..Len(S.reps) : AbsAgainstBase(Sub(dd.src, S.reps[n].s + 1, S.reps[n].e), S.reps[n].repl, CfgMulti)
 
 (* ---- constant-level checks ---- *)
 \* the table's classes agree with the reference's classification of the destination, and every
@@ -75,15 +78,20 @@ ASSUME \A u \in EscStrings : ImplUnescape(ImplURLEscape(u)) = u
 
 (* ---- export ---- *)
 AllDocs == UNION {[1..n -> 1..NK] : n \in 1..AllLen} \cup UNION {[1..n -> CoreKinds] : n \in (AllLen + 1)..CoreLen}
-DocSeq == SetToSeq(AllDocs)
 Names(d) == [i \in 1..Len(d) |-> Kinds[d[i]].name]
-DocCase(id, d, cfg) == [id |-> id, k |-> "doc", kinds |-> Names(d), src |-> Doc(d).src, spans |-> Doc(d).spans,
+DocCase(id, d, cfg) == LET dd == Doc(d) IN
+                       [id |-> id, k |-> "doc", kinds |-> Names(d), src |-> dd.src, spans |-> dd.spans,
                         base |-> cfg.base, dir |-> cfg.dir]
-MultiCases == [n \in 1..Len(DocSeq) |-> DocCase(n, DocSeq[n], CfgMulti)]
-\* single blocks under every other configuration
-SingleCases == [n \in 1..(NK * Len(Cfgs)) |->
-                  DocCase(Len(DocSeq) + n, <<((n - 1) % NK) + 1>>, Cfgs[((n - 1) \div NK) + 1])]
-EscSeq == SetToSeq(EscStrings)
-EscCases == [n \in 1..Len(EscSeq) |-> [id |-> Len(DocSeq) + NK * Len(Cfgs) + n, k |-> "esc", u |-> EscSeq[n]]]
-ASSUME ndJsonSerialize("cases.ndjson", MultiCases \o SingleCases \o EscCases)
+\* (LET: TLC evaluates a LET-bound value once; a top-level definition applied to an index is re-evaluated)
+Cases ==
+  LET docSeq == SetToSeq(AllDocs)
+      escSeq == SetToSeq(EscStrings)
+      nd == Len(docSeq)
+      ns == NK * Len(Cfgs)
+      multi == [n \in 1..nd |-> DocCase(n, docSeq[n], CfgMulti)]
+      \* single blocks under every configuration
+      single == [n \in 1..ns |-> DocCase(nd + n, <<((n - 1) % NK) + 1>>, Cfgs[((n - 1) \div NK) + 1])]
+      esc == [n \in 1..Len(escSeq) |-> [id |-> nd + ns + n, k |-> "esc", u |-> escSeq[n]]] IN
+  multi \o single \o esc
+ASSUME ndJsonSerialize("cases.ndjson", Cases)
 =============================================================================
